@@ -138,7 +138,10 @@ private:
     }
 
     ~node() override {
-      for (unsigned i = pop_idx; i < push_idx; i += step_size) {
+      // push_idx is over-incremented by every push that finds the node full, so it has to be
+      // clamped - otherwise the index wraps around and entries are visited (and deleted) twice.
+      const unsigned end = std::min<unsigned>(push_idx.load(std::memory_order_relaxed), max_idx);
+      for (unsigned i = pop_idx.load(std::memory_order_relaxed); i < end; i += step_size) {
         traits::delete_value(entries[i % entries_per_node].value.load(std::memory_order_relaxed).get());
       }
     }
